@@ -1697,6 +1697,14 @@ def _solve_mats(a, b):
         r = _singular_solve_2x2(a, b)
         if r is not None:
             return r
+    if n == 3:
+        # a CONSTANT exactly singular matrix: torch raises (LAPACK reports a zero pivot); a symbolic determinant is handled
+        # by the division rule (den != 0 on the path, identically zero = harness error)
+        d = (a[0, 0] * (a[1, 1] * a[2, 2] - a[1, 2] * a[2, 1]) - a[0, 1] * (a[1, 0] * a[2, 2] - a[1, 2] * a[2, 0])
+             + a[0, 2] * (a[1, 0] * a[2, 1] - a[1, 1] * a[2, 0]))
+        z = (d == 0)
+        if isinstance(z, (bool, np.bool_)) and z:
+            raise RuntimeError("torch.linalg.solve: The solver failed because the input matrix is singular.")
     if n <= 3:
         return _matmul(_inv(a), b)
     return _gauss_solve(a, b)
